@@ -143,3 +143,24 @@ func stOf(t *Task) Status {
 
 // handlers are only started by run, and run is only called from Ensure
 //@ callers [C02] (*TaskRunner).run: (*TaskRunner).Ensure
+
+// ---- C07: the blocked predicates keep the exclusion relation -------------------------------
+
+// membership of a task kind in ifacestate's taskKinds
+//@ ghost ifaceKind(str) bool
+
+//@ define exclOK(rs []*Task) = (forall i int, j int :: 0 <= i && i < j && j < len(rs) ==> !(rs[i].kind == "prerequisites" && rs[j].kind == "prerequisites") && !(ifaceKind(rs[i].kind) && ifaceKind(rs[j].kind))) && (forall i int :: 0 <= i && i < len(rs) && rs[i].kind == "update-gadget-assets" ==> len(rs) == 1)
+
+//@ define notBlocked(t *Task, rs []*Task) = !((t.kind == "update-gadget-assets" && len(rs) != 0) || exists j int :: 0 <= j && j < len(rs) && rs[j].kind == "update-gadget-assets") && !(t.kind == "prerequisites" && exists j int :: 0 <= j && j < len(rs) && rs[j].kind == "prerequisites") && !(ifaceKind(t.kind) && exists j int :: 0 <= j && j < len(rs) && ifaceKind(rs[j].kind))
+
+//@ func lemExclusionPreserved
+//@   lemma
+//@   props C07
+//@   requires exclOK(running) && notBlocked(t, running)
+//@   requires len(running2) == len(running) + 1 && running2[len(running)] == t && forall i int :: 0 <= i && i < len(running) ==> running2[i] == running[i]
+//@   ensures exclOK(running2)
+
+// if the running set satisfies the exclusion relation (at most one interface task, at most one
+// prerequisites task, update-gadget-assets alone) and none of the three kind-based predicates
+// blocks t, then the set with t added satisfies it too
+func lemExclusionPreserved(t *Task, running, running2 []*Task) {}
